@@ -483,8 +483,9 @@ class Engine:
                 env2.assume(g)
             self.oblige(env2, goal, f"lemma:{lem.name}", "lemma", None, lem.statement.text)
             return
-        kind, var, lo = lem.method
-        assert kind == "induction"
+        kind, var, lo = lem.method[:3]
+        fixed = len(lem.method) > 3 and lem.method[3] == "fixed"     # IH at the same values of the other binders only (an instance of the
+        assert kind == "induction"                                   # quantified IH: sound, and free of quantifiers over arrays)
         lo_cl = Clause(lo)
         # base
         env2, xs, hyps, goal = instance({var: lambda e, xs: self.spec(lo_cl, e)})
@@ -496,9 +497,11 @@ class Engine:
         ih_env, ih_xs, ih_hyps, ih_goal = instance({var: lambda e, xs: v0}, "_ih")
         others = [x for n, x in ih_xs.items() if n != var]
         ih = z3.Implies(z3.And(*ih_hyps), ih_goal) if ih_hyps else ih_goal
-        if others:
-            ih = z3.ForAll(others, ih)
         env3, xs3, hyps3, goal3 = instance({var: lambda e, xs: v0 + 1})
+        if others and fixed:
+            ih = z3.substitute(ih, [(x, xs3[n]) for n, x in ih_xs.items() if n != var])
+        elif others:
+            ih = z3.ForAll(others, ih)
         env3.assume(v0 >= self.spec(lo_cl, env3), ih, *hyps3)
         self.oblige(env3, goal3, f"lemma:{lem.name}/step", "lemma", None, lem.statement.text)
 
